@@ -1,6 +1,7 @@
 import TinkVerif.Model.Sig
 import TinkVerif.Prim.Ec
 import TinkVerif.Prim.Der
+import TinkVerif.Model.DerList
 import TinkVerif.Prim.Curve25519
 import TinkVerif.Prim.Rsa
 import TinkVerif.Prim.Slhdsa
@@ -19,11 +20,12 @@ def curve? : String → Option Curve
 def sigHash? : String → Option HashAlg
   | "SHA256" => some .sha256 | "SHA384" => some .sha384 | "SHA512" => some .sha512 | _ => none
 
-/-- raw ECDSA verification with tink's two encodings -/
+/-- raw ECDSA verification with tink's two encodings. The DER branch runs the proved strict DER
+    model `TinkVerif.DerList.decSig` (round trip + canonicity: `Props/C03Der.lean`). -/
 def ecdsaRaw (c : Curve) (n : Nat) (a : HashAlg) (enc : String) (qx qy : Nat) (sig msg : Bytes) : Bool :=
   let digest := hash a (ba msg)
   if enc == "DER" then
-    match derDecodeEcdsaStrict (ba sig) with
+    match DerList.decSig sig with
     | some (r, s) => ecdsaVerifyRaw c qx qy digest r s
     | none => false
   else
@@ -60,11 +62,17 @@ def handle (toks : List String) : Option String :=
     let e := Bytes.toNatBE (← bytesOfTok? e)
     let salt ← salt.toNat?
     pure (b01 (fullVerify pre (← Variant.ofCode? v) (fun s m => rsaPssVerify a salt n e (ba m) (ba s)) (← bytesOfTok? sig) (← bytesOfTok? msg)))
+  -- strict DER: the proved List model (Model/DerList.lean), cross-checked with the ByteArray reference
   | ["der", sig] => do
-    match derDecodeEcdsaStrict (ba (← bytesOfTok? sig)) with
-    | some (r, s) => pure s!"ok {r} {s}"
-    | none => pure "err"
-  | ["derenc", r, s] => do pure (hx (derEncodeEcdsa (← r.toNat?) (← s.toNat?)))
+    let sig ← bytesOfTok? sig
+    let m := DerList.decSig sig
+    if m != derDecodeEcdsaStrict (ba sig) then pure "MODEL-REFERENCE-MISMATCH"
+    else match m with
+      | some (r, s) => pure s!"ok {r} {s}"
+      | none => pure "err"
+  | ["derenc", r, s] => do
+    let e := DerList.encSig (← r.toNat?) (← s.toNat?)
+    pure (if e == (derEncodeEcdsa (← r.toNat?) (← s.toNat?)).toList then tokOfBytes e else "MODEL-REFERENCE-MISMATCH")
   -- SLH-DSA (FIPS 205)
   | ["slhkeygen", name, skSeed, skPrf, pkSeed] => do
     let p ← Slhdsa.Params.ofName? name
